@@ -7,6 +7,11 @@
 //       InputBuilder) into OrangeInput -> OrangeParams, initialises a host track view at every
 //       lattice probe point and logs the reported volume label.  No expected value is computed
 //       here: spec/SolidsTrace.tla decides.
+//       Exception -- the ORACLE-DECIDED family (scene["oracle"]: regular prisms with any n and
+//       orientation, parallelepipeds, general rotations; real-valued, outside what TLC can own):
+//       analytic membership functions below, written from the documented definitions and never
+//       calling orangeinp, supply the expected label of each probe as a fact (`ora`), plus the
+//       label under each named deviation of the parallelepiped (`alt`, `alt2`); TLC compares.
 //
 //   vbuild roundtrip <scenes.ndjson> <fixtures.txt> <out.ndjson> <nrays> <seed>
 //       For every scene's OrangeInput and every listed .org.json: an INDEPENDENT projector walks
@@ -16,7 +21,7 @@
 //       Input containing an involute surface is NOT read back (finding F-JSON-1: the reader
 //       reaches CELER_ASSERT_UNREACHABLE); a `Deviation` record is logged instead.
 //
-// Records: Scene, Built, Probes, EndScene | RT, Nav, Deviation | Abort, Close.
+// Records: Scene, Built, Probes | OProbes, EndScene | RT, Nav, Deviation, Error | Abort, Close.
 
 #include <cmath>
 #include <csignal>
